@@ -10,6 +10,7 @@ mod reader_drv;
 mod server_drv;
 mod tsiglib_drv;
 mod writer_drv;
+mod zone_drv;
 
 fn main() {
     let args: Vec<String> = std::env::args().skip(1).collect();
@@ -25,6 +26,7 @@ fn main() {
         "writer" => writer_drv::main(&args[1..]),
         "tsiglib" => tsiglib_drv::main(&args[1..]),
         "names" => names_drv::main(&args[1..]),
+        "zone" => zone_drv::main(&args[1..]),
         d => {
             eprintln!("unknown driver {}", d);
             std::process::exit(2);
